@@ -62,7 +62,7 @@ def _check(hyps, goal, timeout_ms, tactic=None, second=True):
   r = guarded_check(s, int(timeout_ms))
   model = s.model() if r == 'sat' else None
   if r == 'unknown' and second:
-    r2, m2 = second_opinion(s, timeout_s=max(3, int(timeout_ms / 2000)), want_model=True)
+    r2, m2 = second_opinion(s, timeout_s=max(10, int(timeout_ms / 1000)), want_model=True)
     if r2 == 'unsat':
       r = 'unsat'
     elif r2 == 'sat' and m2 is not None:
